@@ -88,6 +88,21 @@ func readBits(v any) (string, error) {
 	if got != n {
 		return "", fmt.Errorf("short read %d of %d bits", got, n)
 	}
+	// a read defines every bit it returns: the same read into a destination that held
+	// ones before must give the same bits (a reader that leaves part of the destination
+	// untouched shows whatever a consumer's reused buffer held)
+	dirty := make([]byte, (n+7)/8)
+	for i := range dirty {
+		dirty[i] = 0xff
+	}
+	if got2, err := bitio.ReadAtFull(br, dirty, n, 0); err != nil || got2 != n {
+		return "", fmt.Errorf("second read of the same %d bits failed: %d, %v", n, got2, err)
+	}
+	for i := int64(0); i < n; i++ {
+		if (buf[i/8]>>(7-uint(i%8)))&1 != (dirty[i/8]>>(7-uint(i%8)))&1 {
+			return "", fmt.Errorf("bit %d of %d depends on what the destination buffer held before the read (zeroed: %x, ones: %x)", i, n, buf[:min(len(buf), 8)], dirty[:min(len(dirty), 8)])
+		}
+	}
 	var sb strings.Builder
 	sb.Grow(int(n))
 	for i := int64(0); i < n; i++ {
